@@ -38,11 +38,17 @@ def main(argv: list[str] | None = None) -> int:
                 print(f"REPLAY {o.status}: {o.rule} {o.construct} :: {o.detail} [{o.loc}]")
             if not hits:
                 print(f"REPLAY: obligation {key} no longer produced on this tree")
-        code = rep.finish(repo)
-        if args.tier == "thorough" and code == 0:
+        problems = []
+        if args.tier == "thorough" and not args.replay:
             from . import selftest
 
-            code = selftest.run_for(prop)
+            summary, problems = selftest.collect(prop)
+            rep.analysed["selftest"] = summary
+            print(f"SELFTEST {prop} fired {summary.get('breaking_fired', '0/0')}, silent {summary.get('benign_silent', '0/0')} ({summary.get('variants', 0)} scratch-copy variants)")
+        code = rep.finish(repo)
+        if problems and code == 0:
+            print(f"ANALYSIS-ERROR property={prop}: checker self-test failed: " + "; ".join(f"{m}={st}" for m, st, _ in problems))
+            return 2
         return code
     except AnalysisError as e:
         print(f"ANALYSIS-ERROR property={prop}: {e}")
